@@ -386,6 +386,27 @@ def r6_put_out_of_place(ctx):
     state_put_out_of_place(ctx, rid="C02.R6", why="the by-reference snapshot shares that tensor, so a rejected proposal is 'restored' with the proposed entries in it")
 
 
+def r7_auto_fork_scoped(ctx):
+    """`with state.auto_fork(None): ...` must switch snapshotting back on however the block is left: if an exception escaping the block
+    leaves it off, the next proposals are not forked and `revert()` restores a stale snapshot (or finds none)."""
+    ctx.rule("C02.R7", "State.auto_fork restores the previous forking mode in a `finally` around the yield", 1)
+    f = ctx.ix.func(STATE, "State.auto_fork", "C02.R7")
+    ys = [n for n in ast.walk(f.node) if isinstance(n, (ast.Yield, ast.YieldFrom))]
+    if len(ys) != 1:
+        ctx.unknown("C02.R7", f, f.node, f"{len(ys)} yield(s) in State.auto_fork (one expected)")
+        return
+    saved = [U(st.targets[0]) for st in statements(f.node) if isinstance(st, ast.Assign) and U(st.value) == "self.auto_fork_type" and isinstance(st.targets[0], ast.Name)]
+    ok = False
+    for t in ast.walk(f.node):
+        if isinstance(t, ast.Try) and any(y is ys[0] for b in t.body for y in ast.walk(b)):
+            for st in t.finalbody:
+                if isinstance(st, ast.Assign) and U(st.targets[0]) == "self.auto_fork_type" and U(st.value) in saved:
+                    ok = True
+    ctx.check(ok, "C02.R7", f, ys[0], "the previous mode is saved before and restored in `finally` around the yield",
+              "State.auto_fork does not restore the previous forking mode in a `finally`: an exception escaping `with state.auto_fork(None)` leaves snapshotting off, "
+              "and later rejected proposals are not (or wrongly) reverted")
+
+
 def rules(ctx):
     r1_snapshot(ctx)
     r2_typestate(ctx)
@@ -393,6 +414,7 @@ def rules(ctx):
     r4_selection(ctx)
     r5_reads_before_partial_revert(ctx)
     r6_put_out_of_place(ctx)
+    r7_auto_fork_scoped(ctx)
     ctx.trust("torch.where selects element-wise without arithmetic on the unselected operand")
     ctx.assume("samplers are the only callers of State.revert during sampling (checked for C13)")
 
@@ -400,6 +422,8 @@ def rules(ctx):
 S = "src/leaspy/variables/state.py"
 G = "src/leaspy/samplers/gibbs.py"
 VARIANTS = [
+    V("auto-fork-not-restored-on-exception", S, "        try:\n            self.auto_fork_type = type\n            yield\n        finally:\n            self.auto_fork_type = orig_auto_fork_type\n",
+      "        self.auto_fork_type = type\n        yield\n        self.auto_fork_type = orig_auto_fork_type\n", "C02.R7"),
     V("snapshot-after-store", S, """        if self.auto_fork_type is not None:
             self._last_fork = self.auto_fork_type.to_cache(
                 {child: self._values[child] for child in (name,) + sorted_children}
